@@ -158,6 +158,8 @@ import s_treeprops
 def tree_plan(prop, quick, thorough, rule, assumptions=()):
     def run(tier, seed, out, drv):
         s_treeprops.tree_suite(prop, seed, quick if tier == 'quick' else thorough, out, drv, budget_s=120 if tier == 'quick' else 1500)
+        if prop in ('C13', 'C18'): s_treeprops.odd_inputs_suite(prop, out, drv)
+        if prop == 'C12': s_treeprops.documenter_defaults_suite(out, drv)
         if prop in ('C13', 'C18', 'C15'):
             import s_cli
             s_cli.cli_suite(prop, seed, 25 if tier == 'quick' else 600, out, drv)
